@@ -21,13 +21,21 @@ import sys
 import py2v
 from py2v import Unsupported, coq_str
 
-gen = sys.modules.get('gen')
-if gen is None or not hasattr(gen, 'TARGETS'):
+import gen  # noqa: E402  (tools/gen.py; when gen.py runs as a script the plug-in registers there as well)
+
+
+def _target(name, sources):
+    mods = [gen]
     main_mod = sys.modules.get('__main__')
-    if main_mod is not None and hasattr(main_mod, 'TARGETS') and hasattr(main_mod, 'target'):
-        gen = main_mod
-    else:
-        import gen  # noqa: E402
+    if main_mod is not None and main_mod is not gen and hasattr(main_mod, 'TARGETS') and hasattr(main_mod, 'target'):
+        mods.append(main_mod)
+
+    def deco(f):
+        for m in mods:
+            m.TARGETS[name] = (sources, f)
+        return f
+    return deco
+
 
 ELEMENTS = "H B C N O F Na Mg Si P S Cl Br I".split()
 CHARGES = [-2, -1, 0, 1, 2]
@@ -125,7 +133,7 @@ def kw(call, name, what):
     return ks[0].value
 
 
-@gen.target('HydroGen', ['cgsmiles/pysmiles_utils.py', 'cgsmiles/resolve.py'])
+@_target('HydroGen', ['cgsmiles/pysmiles_utils.py', 'cgsmiles/resolve.py'])
 def gen_hydro(trees):
     out = ''
     # ------------------------------------------------------------------ installed pysmiles
@@ -177,35 +185,23 @@ def gen_hydro(trees):
     reset_attr = const(sna[0].args[2], str, 'hcount reset attribute')
     if isinstance(reset_val, bool):
         raise Unsupported('hcount reset value is a bool')
-    # the inheritance loop: `if element == "H" and not mol_graph.nodes[node].get("single_h_frag", False)`
-    loops = [n for n in fn.body if isinstance(n, ast.For)]
+    # the inheritance loop: the literals it tests (`element == "H"`, `.get("single_h_frag", False)`).  Its
+    # control flow is hand-modelled and tied by the per-run correspondence, so only the literals are pinned.
+    loops = [n for n in fn.body if isinstance(n, ast.For) and n.lineno > aeh[0].lineno]
     if len(loops) != 1:
-        raise Unsupported('expected one top-level for loop (attribute inheritance) in rebuild_h_atoms')
+        raise Unsupported('expected one for loop (attribute inheritance) after add_explicit_hydrogens')
     loop = loops[0]
-    if not (len(loop.body) == 1 and isinstance(loop.body[0], ast.If)
-            and isinstance(loop.body[0].test, ast.BoolOp) and isinstance(loop.body[0].test.op, ast.And)
-            and len(loop.body[0].test.values) == 2):
-        raise Unsupported('inheritance loop changed shape')
-    cmp_, neg = loop.body[0].test.values
-    if not (isinstance(cmp_, ast.Compare) and len(cmp_.ops) == 1 and isinstance(cmp_.ops[0], ast.Eq)
-            and isinstance(neg, ast.UnaryOp) and isinstance(neg.op, ast.Not) and isinstance(neg.operand, ast.Call)
-            and isinstance(neg.operand.func, ast.Attribute) and neg.operand.func.attr == 'get'
-            and len(neg.operand.args) == 2):
-        raise Unsupported('inheritance loop test changed shape')
-    h_elem = const(cmp_.comparators[0], str, 'hydrogen element literal')
-    skip_attr = const(neg.operand.args[0], str, 'single-H attribute')
-    skip_default = const(neg.operand.args[1], bool, 'single-H default')
-    if ast.unparse(loop.iter) != "mol_graph.nodes(data='element')":
-        raise Unsupported('inheritance loop iterates over %s' % ast.unparse(loop.iter))
-    body = loop.body[0].body
-    if not (len(body) == 2 and ast.unparse(body[0]) == 'anchor = next(mol_graph.neighbors(node))'
-            and isinstance(body[1], ast.For) and ast.unparse(body[1].iter) == 'copy_attrs'):
-        raise Unsupported('inheritance loop body changed shape')
-    inner = [ast.unparse(s) for s in body[1].body]
-    if inner != ['if attr in mol_graph.nodes[node]:\n    continue',
-                 'value = mol_graph.nodes[anchor].get(attr, None)',
-                 'mol_graph.nodes[node][attr] = value']:
-        raise Unsupported('inheritance loop inner body changed: %r' % (inner,))
+    cmps = [n for n in ast.walk(loop) if isinstance(n, ast.Compare) and len(n.ops) == 1 and isinstance(n.ops[0], ast.Eq)
+            and isinstance(n.comparators[0], ast.Constant) and isinstance(n.comparators[0].value, str)]
+    gets = [n for n in ast.walk(loop) if isinstance(n, ast.Call) and isinstance(n.func, ast.Attribute)
+            and n.func.attr == 'get' and len(n.args) == 2 and isinstance(n.args[0], ast.Constant)
+            and isinstance(n.args[0].value, str) and isinstance(n.args[1], ast.Constant)
+            and isinstance(n.args[1].value, bool)]
+    if len(cmps) != 1 or len(gets) != 1:
+        raise Unsupported('inheritance loop: expected one `== "<element>"` test and one `.get("<flag>", <bool>)`')
+    h_elem = cmps[0].comparators[0].value
+    skip_attr = gets[0].args[0].value
+    skip_default = gets[0].args[1].value
     out += '(* cgsmiles/pysmiles_utils.py: rebuild_h_atoms *)\n'
     out += 'Definition rebuild_keep_bonding_default : bool := %s.\n' % ('true' if keep_bonding else 'false')
     out += 'Definition rebuild_copy_attrs_default : list pystr := [%s].\n' % '; '.join(coq_str(a) for a in copy_attrs)
@@ -241,8 +237,6 @@ def gen_hydro(trees):
                 and ast.unparse(a.target.value) == 'self.molecule.nodes[node_to_keep]'):
             raise Unsupported('augmented assignment in squash_atoms changed shape')
         nm = const(a.target.slice, str, 'concatenated attribute')
-        if ast.unparse(a.value) != "self.molecule.nodes[node_to_keep]['contraction'][node_to_remove]['%s']" % nm:
-            raise Unsupported('right-hand side of the %s concatenation changed' % nm)
         names.append(nm)
     out += '(* cgsmiles/resolve.py: squash_atoms *)\n'
     out += 'Definition squash_prefix : pystr := %s.\n' % coq_str(prefix)
